@@ -14,11 +14,16 @@ SPEC = {
     ("C01", "C01_single_content_length"), ("C01", "C01_single_content_length_read"),
     ("C01", "C01_judge_bridge_partial"), ("C01", "C01_judge_bridge_request"), ("C01", "C01_judge_bridge_response"),
     ("C01", "C01_judge_relay"), ("C01", "C01_legacy_refuted")]),
- "C07": (["C07"], [
+ "C07": (["C07", "C07_bridge"], [
     ("C07", "C07_stamp"), ("C07", "C07_stamp_params"), ("C07", "C07_kv_set_char"), ("C07", "C07_pipeline"),
     ("C07", "C07_wiring"), ("C07", "C07_wiring_legacy"), ("C07", "C07_wired_reachable"),
-    ("C07", "C07_step_udp"), ("C07", "C07_step_tcp")]),
- "C02": (["C07", "C02"], [
+    ("C07", "C07_step_udp"), ("C07", "C07_step_tcp"),
+    ("C07_bridge", "C07_judge_bridge_udp"), ("C07_bridge", "C07_judge_bridge_step")]),
+ "C02": (["C06", "C13_bridge", "C07_bridge", "C07", "C02", "C02_bridge"], [
+    ("C02_bridge", "C02_judge_bridge_core"), ("C02_bridge", "C02_judge_bridge_step_udp"), ("C02_bridge", "C02_judge_bridge_step_drop"),
+    ("C02_bridge", "C02_judge_bridge_step_unsupported"), ("C02_bridge", "C02_judge_bridge_step_unresolved"),
+    ("C02_bridge", "C02_judge_bridge_step_tcp_partial"), ("C02_bridge", "C02_judge_bridge_step_tcp_sent"),
+    ("C02_bridge", "C02_judge_bridge_step_tcp_fresh"),
     ("C02", "C02_response_general"), ("C02", "C02_response_hop"), ("C02", "C02_single_via_dropped"),
     ("C02", "C02_undecodable_dropped"), ("C02", "C02_dest_unsupported"), ("C02", "C02_dest_udp"), ("C02", "C02_dest_tcp"),
     ("C02", "C02_tcp_slot_reachable"), ("C02", "C02_independent_of_pins"), ("C02", "C02_roundtrip_return"),
@@ -30,7 +35,8 @@ SPEC = {
     ("C06", "branch_of_inj", "C06_branch_of_inj"), ("C06", "branch_of_cookie", "C06_branch_of_cookie"),
     ("C06", "C06_branches_distinct"), ("C06", "learn_lookup", "C06_learn_lookup"), ("C06", "C06_learning"),
     ("C06", "C06_learning_response"), ("C03", "C06_relayed_request")]),
- "C13": (["C06", "C13"], [
+ "C13": (["C06", "C13", "C13_bridge"], [
+    ("C13_bridge", "C13_route_headers"), ("C13_bridge", "C13_judge_bridge_udp"), ("C13_bridge", "C13_judge_bridge_step"),
     ("C13", "try_remove_top_route_pops_iff_own", "C13_own_popped_iff"),
     ("C13", "next_hop_by_route_pops_iff_not_keep", "C13_next_hop_popped_iff_not_keep"),
     ("C13", "C13_route"), ("C13", "C13_route_decoded"), ("C13", "route_view_grammar", "C13_route_view_grammar"),
